@@ -2,17 +2,8 @@ import PSO.Proofs.JournalOps
 /-! Operation sequences: refinement of the list, reopen, crash points and the stored commit index. -/
 namespace PSO.Journal
 
-/-- What actually holds after a kill inside `op` (for the head drop: possibly only a prefix of what
-it was meant to keep). -/
-def CrashAct (old : List Entry) : Op → List Entry → Prop
-  | .add e, r => r = old ∨ r = old ++ [e]
-  | .clear, r => r = old ∨ r = []
-  | .delFrom n, r => ∃ m, n ≤ m ∧ r = old.take m
-  | .delTo n, r => r = old ∨ ∃ m, r = (old.drop n).take m
-  | _, r => r = old
-
-theorem CrashAct.spec {old op r} (h : CrashAct old op r) (hop : ∀ n, op ≠ .delTo n) : CrashSpec old op r := by
-  cases op <;> first | exact h | exact absurd rfl (hop _)
+/-- What holds after a kill inside `op`: exactly what the property demands. -/
+abbrev CrashAct (old : List Entry) (op : Op) (r : List Entry) : Prop := CrashSpec old op r
 
 /-- Crash predicate of one operation of the object `j`. -/
 def CrashQ (j : FJ) (op : Op) (d : Disk) : Prop :=
@@ -57,31 +48,53 @@ theorem timer_ok {j : FJ} (hi : Inv j) :
 
 /-- One step: succeeds within the limits, keeps the invariant, refines the list operation, its
 primitives replay to the new disk, and every crash point is characterised. -/
-theorem step_ok {j : FJ} (hi : Inv j) (op : Op) (hok : OkStep j.entries op) :
+theorem clear_ver {j j' : FJ} {ps : List Prim} (h : j.clear = .ok (j', ps)) : j'.ver = j.ver := by
+  unfold FJ.clear at h
+  split at h
+  · cases h
+  · simp only [Except.ok.injEq, Prod.mk.injEq] at h
+    obtain ⟨rfl, _⟩ := h; rfl
+
+theorem delFrom_ver {j j' : FJ} {n : Nat} {ps : List Prim} (h : j.delFrom n = .ok (j', ps)) :
+    j'.ver = j.ver := by
+  unfold FJ.delFrom at h
+  split at h
+  · cases h
+  · simp only at h
+    split at h
+    · cases h
+    · simp only [Except.ok.injEq, Prod.mk.injEq] at h
+      obtain ⟨rfl, _⟩ := h; rfl
+
+theorem step_ok {j : FJ} (hi : Inv j) (hver : j.ver.length ≤ 8) (op : Op) (hok : OkStep j.entries op) :
     ∃ j' ps, j.step op = .ok (j', ps) ∧ Inv j' ∧ j'.entries = listStep j.entries op ∧
       j'.disk = applyPrims j.disk ps ∧ CrashAll (CrashQ j op) j.disk ps ∧
-      (j'.mci = j.mci ∨ j'.mci = j.disk.metaFile ∨ ∃ v, op = .setCommit v ∧ j'.mci = some v) := by
+      (j'.mci = j.mci ∨ j'.mci = j.disk.metaFile ∨ ∃ v, op = .setCommit v ∧ j'.mci = some v) ∧
+      j'.ver = j.ver := by
   cases op with
   | add e =>
     obtain ⟨j', ps, a1, a2, a3, a4, a5, _, a7, _⟩ := add_ok (d0 := j.disk) hi e hok.1 hok.2 rfl rfl
-    exact ⟨j', ps, a1, a2, a3, a4, a7.mono (fun d h => h.toCrashQ (fun r hr => hr)), Or.inl a5⟩
+    exact ⟨j', ps, a1, a2, a3, a4, a7.mono (fun d h => h.toCrashQ (fun r hr => hr)), Or.inl a5,
+      (add_shape a1).1⟩
   | clear =>
     obtain ⟨j', ps, a1, a2, a3, a4, a5, _, _, _, a9, _⟩ := clear_ok (d0 := j.disk) hi rfl rfl
-    exact ⟨j', ps, a1, a2, a3, a4, a9.mono (fun d h => h.toCrashQ (fun r hr => hr)), Or.inl a5⟩
+    exact ⟨j', ps, a1, a2, a3, a4, a9.mono (fun d h => h.toCrashQ (fun r hr => hr)), Or.inl a5, clear_ver a1⟩
   | delFrom n =>
     obtain ⟨j', ps, a1, a2, a3, a4, a5, _, a7⟩ := delFrom_ok (d0 := j.disk) hi n rfl rfl
-    exact ⟨j', ps, a1, a2, a3, a4, a7.mono (fun d h => h.toCrashQ (fun r hr => hr)), Or.inl a5⟩
+    exact ⟨j', ps, a1, a2, a3, a4, a7.mono (fun d h => h.toCrashQ (fun r hr => hr)), Or.inl a5, delFrom_ver a1⟩
   | delTo n =>
-    obtain ⟨j', ps, a1, a2, a3, a4, a5, _, a7, _⟩ := delTo_ok (d0 := j.disk) hi n rfl rfl
-    exact ⟨j', ps, a1, a2, a3, a4, a7.mono (fun d h => h.toCrashQ (fun r hr => hr)), Or.inl a5⟩
+    obtain ⟨j', ps, a1, a2, a3, a4, a5, _, a7, a8⟩ := delTo_ok (d0 := j.disk) hi hver n rfl rfl
+    exact ⟨j', ps, a1, a2, a3, a4, a8.mono (fun d h => h.toCrashQ (fun r hr => hr)), Or.inl a5, a7⟩
   | setCommit v =>
-    exact ⟨_, [], rfl, hi, rfl, rfl, CrashAll.nil ⟨Or.inl rfl, j.entries, hi.1, rfl⟩, Or.inr (Or.inr ⟨v, rfl, rfl⟩)⟩
+    exact ⟨_, [], rfl, hi, rfl, rfl, CrashAll.nil ⟨Or.inl rfl, j.entries, hi.1, rfl⟩,
+      Or.inr (Or.inr ⟨v, rfl, rfl⟩), rfl⟩
   | timer =>
     obtain ⟨a1, a2, a3, a4, a5⟩ := timer_ok hi
-    exact ⟨_, _, rfl, a1, a2, a3, a5, Or.inl a4⟩
+    refine ⟨_, _, rfl, a1, a2, a3, a5, Or.inl a4, ?_⟩
+    unfold FJ.timer; split <;> rfl
   | reopen =>
-    refine ⟨_, [], openDisk_of_DInv hi.1, ⟨hi.1, rfl⟩, rfl, rfl, CrashAll.nil ⟨Or.inl rfl, j.entries, hi.1, rfl⟩,
-      Or.inr (Or.inl rfl)⟩
+    refine ⟨_, [], openDisk_of_DInv j.ver hi.1, ⟨hi.1, rfl⟩, rfl, rfl,
+      CrashAll.nil ⟨Or.inl rfl, j.entries, hi.1, rfl⟩, Or.inr (Or.inl rfl), rfl⟩
 
 /-- Outside the limits `add` fails with `struct.error` (the error branch). -/
 theorem add_error {j : FJ} (hi : Inv j) (e : Entry) (h : ¬ OkStep j.entries (.add e)) :
@@ -118,14 +131,15 @@ structure Reach (S : List Nat) (l : List Entry) (j : FJ) : Prop where
   inv : Inv j
   ents : j.entries = l
   metaInv : MetaInv S j
+  verLen : j.ver.length ≤ 8
 
 theorem step_reach {S l j} (hr : Reach S l j) (op : Op) (hok : OkStep l op) :
     ∃ j' ps, j.step op = .ok (j', ps) ∧ Reach (S ++ setValues [op]) (listStep l op) j' ∧
       j'.disk = applyPrims j.disk ps ∧ CrashAll (CrashQ j op) j.disk ps := by
-  obtain ⟨hi, he, hm⟩ := hr
+  obtain ⟨hi, he, hm, hvl⟩ := hr
   subst he
-  obtain ⟨j', ps, a1, a2, a3, a4, a5, a6⟩ := step_ok hi op hok
-  refine ⟨j', ps, a1, ⟨a2, a3, ?_, ?_⟩, a4, a5⟩
+  obtain ⟨j', ps, a1, a2, a3, a4, a5, a6, a7⟩ := step_ok hi hvl op hok
+  refine ⟨j', ps, a1, ⟨a2, a3, ⟨?_, ?_⟩, by rw [a7]; exact hvl⟩, a4, a5⟩
   · intro v hv
     rcases a6 with h | h | ⟨w, rfl, h⟩
     · exact List.mem_append_left _ (hm.1 v (h ▸ hv))
@@ -193,7 +207,7 @@ theorem run_append (j : FJ) (a b : List Op) :
 theorem crash_open {S l j} (hr : Reach S l j) (op : Op) (hok : OkStep l op) :
     ∃ j' ps, j.step op = .ok (j', ps) ∧ j'.disk = applyPrims j.disk ps ∧
       Reach (S ++ setValues [op]) (listStep l op) j' ∧
-      ∀ k t, ∃ jc, openDisk (crashDisk j.disk ps k t) = .ok (jc, []) ∧ CrashAct l op jc.entries ∧
+      ∀ k t, ∃ jc, openDisk j.ver (crashDisk j.disk ps k t) = .ok (jc, []) ∧ CrashAct l op jc.entries ∧
         Reach S jc.entries jc ∧ (jc.commitIndex = 1 ∨ jc.commitIndex ∈ S) := by
   obtain ⟨j', ps, a1, a2, a3, a4⟩ := step_reach hr op hok
   refine ⟨j', ps, a1, a3, a2, ?_⟩
@@ -204,7 +218,7 @@ theorem crash_open {S l j} (hr : Reach S l j) (op : Op) (hok : OkStep l op) :
     rcases hmeta with h | h
     · exact hr.metaInv.2 v (by rw [← h, hv])
     · exact hr.metaInv.1 v (by rw [← h, hv])
-  refine ⟨_, openDisk_of_DInv hd, by rw [← hr.ents]; exact hact, ⟨⟨hd, rfl⟩, rfl, ⟨hmi, hmi⟩⟩, ?_⟩
+  refine ⟨_, openDisk_of_DInv j.ver hd, by rw [← hr.ents]; exact hact, ⟨⟨hd, rfl⟩, rfl, ⟨hmi, hmi⟩, hr.verLen⟩, ?_⟩
   simp only [FJ.commitIndex]
   cases hmf : (crashDisk j.disk ps k t).metaFile with
   | none => left; rfl
@@ -215,20 +229,21 @@ theorem crash_open {S l j} (hr : Reach S l j) (op : Op) (hok : OkStep l op) :
     · exact hr.metaInv.2 v (by rw [← h, hmf])
     · exact hr.metaInv.1 v (by rw [← h, hmf])
 
-/-- The head drop killed right after its `clear()`: nothing is left. -/
-theorem crash_delTo_after_clear {S l j} (hr : Reach S l j) (n : Nat) :
-    ∃ j' ps, j.step (.delTo n) = .ok (j', ps) ∧
-      ∀ t, ∃ jc, openDisk (crashDisk j.disk ps 1 t) = .ok (jc, []) ∧ jc.entries = [] := by
-  obtain ⟨j', ps, a1, _, _, _, _, _, _, a8⟩ := delTo_ok (d0 := j.disk) hr.inv n rfl rfl
+/-- The OLD head drop (`clear()` + re-`add`, before the repair of D15) killed right after its
+`clear()`: nothing is left. -/
+theorem crash_delToOld_after_clear {S l j} (hr : Reach S l j) (n : Nat) :
+    ∃ j' ps, j.delToOld n = .ok (j', ps) ∧
+      ∀ t, ∃ jc, openDisk j.ver (crashDisk j.disk ps 1 t) = .ok (jc, []) ∧ jc.entries = [] := by
+  obtain ⟨j', ps, a1, _, _, _, _, _, _, a8⟩ := delToOld_ok (d0 := j.disk) hr.inv n rfl rfl
   refine ⟨j', ps, a1, fun t => ?_⟩
   obtain ⟨_, _, es, hd, rfl⟩ := a8 t
-  exact ⟨_, openDisk_of_DInv hd, rfl⟩
+  exact ⟨_, openDisk_of_DInv j.ver hd, rfl⟩
 
 /-- While the header word is unchanged, ANY bytes in the record area of an `add` are harmless. -/
 theorem add_any_garbage {S l j} (hr : Reach S l j) (e : Entry) (g : Bytes) (hg : g.length ≤ recLen e) :
-    ∃ jc, openDisk { j.disk with file := storeAt (rfWrite j.disk.file j.cur (encRecord e)).1 j.cur g }
+    ∃ jc, openDisk j.ver { j.disk with file := storeAt (rfWrite j.disk.file j.cur (encRecord e)).1 j.cur g }
         = .ok (jc, []) ∧ jc.entries = l := by
-  obtain ⟨⟨hd, hc⟩, he, _⟩ := hr
+  obtain ⟨⟨hd, hc⟩, he, _, _⟩ := hr
   obtain ⟨_, t2, t3, _⟩ := tailWrite (d0 := j.disk) e hd rfl rfl
   have hlen := t2.length_le (by simp)
   rw [encLen_append] at hlen; simp only [encLen] at hlen
@@ -237,12 +252,12 @@ theorem add_any_garbage {S l j} (hr : Reach S l j) (e : Entry) (g : Bytes) (hg :
     refine ⟨t2.prefix.storeTail (by simp) g (by omega), hd.2.1, ?_⟩
     rw [storeAt_length (by omega)]; exact t3
   rw [hc]
-  exact ⟨_, openDisk_of_DInv (d := { j.disk with file := _ }) hd', he⟩
+  exact ⟨_, openDisk_of_DInv (d := { j.disk with file := _ }) j.ver hd', he⟩
 
 /-- A commit index that was set and then flushed by the timer is what a reopen reports. -/
 theorem set_timer_persists {S l j} (hr : Reach S l j) (v : Nat) :
     ∃ j1 p1 j2 p2 jc, j.step (.setCommit v) = .ok (j1, p1) ∧ j1.step .timer = .ok (j2, p2) ∧
-      openDisk j2.disk = .ok (jc, []) ∧ jc.commitIndex = v ∧ jc.entries = l := by
+      openDisk j.ver j2.disk = .ok (jc, []) ∧ jc.commitIndex = v ∧ jc.entries = l := by
   have hd := hr.inv.1
   have h2 : ({ j with mci := some v, metaSaved := false } : FJ).step .timer =
       .ok ({ j with mci := some v, metaSaved := true,
@@ -250,26 +265,30 @@ theorem set_timer_persists {S l j} (hr : Reach S l j) (v : Nat) :
         [Prim.tmpCreate, Prim.tmpWrite (some v), Prim.tmpMove]) := by
     simp [FJ.step, FJ.timer, applyPrims, applyPrim]
   have hd2 : DInv ({ j.disk with metaFile := some v, tmp := .absent } : Disk).file j.entries := hd
-  exact ⟨_, _, _, _, _, rfl, h2, openDisk_of_DInv hd2, rfl, hr.ents⟩
+  exact ⟨_, _, _, _, _, rfl, h2, openDisk_of_DInv j.ver hd2, rfl, hr.ents⟩
 
 theorem padTo_length (bs : Bytes) (n : Nat) (h : bs.length ≤ n) : (padTo bs n).length = n := by
   simp [padTo, zeros]; omega
 
-theorem create_reach (ver : Bytes) (hver : ver.length ≤ 8) : Reach [] [] (create ver) := by
-  have hn : (padTo APP_NAME NAME_SIZE).length = 24 := by decide
-  have hvl : (padTo ver VERSION_SIZE).length = 8 := padTo_length _ _ hver
-  refine ⟨⟨⟨⟨padTo APP_NAME NAME_SIZE ++ padTo ver VERSION_SIZE ++ leEnc 4 1, zeros (1024 - 40), ?_, ?_⟩,
-    Valid.nil, ?_⟩, rfl⟩, rfl, ?_⟩
-  · simp [hn, hvl]
-  · have hlen : (defaultHeader ver).length = 40 := by
-      simp [defaultHeader, hn, hvl]
-    simp only [create, resizeFile_ge (show (defaultHeader ver).length ≤ INITIAL_SIZE by rw [hlen]; decide), hlen]
-    simp [defaultHeader, encEntries, encLen, FIRST_RECORD_OFFSET, INITIAL_SIZE, List.append_assoc]
-  · have hlen : (defaultHeader ver).length = 40 := by
-      simp [defaultHeader, hn, hvl]
-    simp only [create]
-    rw [resizeFile_length (by rw [hlen]; decide)]; decide
-  · exact ⟨by simp [create], by simp [create]⟩
+theorem create_reach (ver : Bytes) (hver : ver.length ≤ 8) : Reach [] [] (create ver) :=
+  ⟨⟨DInv_fresh ver hver, rfl⟩, rfl, ⟨by simp [create], by simp [create]⟩, hver⟩
+
+@[simp] theorem create_ver (ver : Bytes) : (create ver).ver = ver := rfl
+
+theorem run_ver {S l j} (hr : Reach S l j) (ops : List Op) (j' : FJ) (h : run j ops = .ok j') :
+    j'.ver = j.ver := by
+  induction ops generalizing S l j with
+  | nil => simp [run] at h; rw [h]
+  | cons op ops ih =>
+    by_cases hok : OkStep l op
+    · obtain ⟨j1, ps, a1, a2, a3, a4, a5, a6, a7⟩ := step_ok hr.inv hr.verLen op (by rw [hr.ents]; exact hok)
+      have hr1 : Reach (S ++ setValues [op]) (listStep l op) j1 := by
+        obtain ⟨j1', ps', b1, b2, _, _⟩ := step_reach hr op hok
+        rw [a1] at b1; cases b1; exact b2
+      simp only [run, a1] at h
+      rw [ih hr1 h, a7]
+    · have := step_error hr.inv op (by rw [hr.ents]; exact hok)
+      simp [run, this] at h
 
 theorem totalBytes_ok (ops : List Op) : ∀ l : List Entry, encLen l + totalBytes ops < U32 →
     ops.all opValid = true → OkFrom l ops := by
